@@ -105,6 +105,7 @@ type abConn struct {
 	connected  bool
 	connErr    *tcpip.Error
 	startedAt  time.Duration // when the client called Connect
+	phantoms   int           // further connections the listener handed out for this client port (finding F11)
 	unclean    bool          // an application closed a side while data was still owed in either direction: errors may be legitimate
 	started    bool
 	iss        [2]uint32
@@ -427,6 +428,7 @@ func (w *ABWorld) accept() {
 				// a replayed final ACK of a finished connection validates as a SYN
 				// cookie and yields a fresh, silent connection: not counted (DESIGN C01)
 				w.phantoms++
+				c.phantoms++
 				w.Probes["phantom_connection_from_stale_ack"]++
 				ep.Close()
 				w.Settle()
@@ -549,6 +551,13 @@ func (w *ABWorld) read(ci, si int) bool {
 							break
 						}
 					}
+				}
+				if si == 0 && c.phantoms > 0 {
+					// (F11 again: after the passive side had given the connection up, a late bare ACK made its listener
+					// hand out a second connection on the same 4-tuple; when that one is closed its FIN carries the
+					// sequence number the client expects next: the phantom's numbers start at the late ACK's
+					// acknowledgement number, which is how far the client had got)
+					sig = " [passive side accepted from a late bare ACK taken as SYN cookie a second connection on this 4-tuple; its FIN ended the client's stream]"
 				}
 				w.Fail("eof-before-data", sig, "connection %d: reader side %d saw end-of-stream after %d bytes but the writer's writes had accepted %d before it shut down%s", ci, si, s.read, ws.accepted, sig)
 			}
